@@ -35,7 +35,8 @@ RULE = ("seeded random DCOPs (70 % assembled by filling the DCOP's dicts, 30 % t
         "(matrix, function-without-expression, expression) of arity 1-3, 0-4 agents with capacity, "
         "symmetric / one-sided / unknown-target routes, default and specific hosting costs; dumped "
         "and read back from a string, a str path, or 1-3 files (optionally an extra file "
-        "re-defining the agents); plus hand-written trees using the syntax dcop_yaml never emits "
+        "re-defining the agents; in 40 % of the file cases the same paths first held another DCOP "
+        "that was loaded earlier in the process); plus hand-written trees using the syntax dcop_yaml never emits "
         "(default value, 'variables: v', agents as a list, global default hosting cost) and "
         "malformed trees.  non-trivial = at least one constraint or one agent; distinct = distinct "
         "case JSON")
@@ -186,6 +187,15 @@ def _gen_dcop(rng):
             routes=rs,
             default_hosting=rng.choice([0, 0, 0, 1, 5, rng.randint(0, 20)]),
             hosting=[[c, rng.randint(0, 30)] for c in comps if rng.random() < 0.25]))
+    if len(agents) >= 2 and rng.random() < 0.12:
+        # heterogeneous default hosting costs: a non-zero value shared by most agents and one
+        # agent that relies on the implicit default 0 (no entry at all in hosting_costs)
+        h = rng.choice([1, 5, 8, rng.randint(1, 20)])
+        for a in agents:
+            a["default_hosting"] = h
+        z = rng.choice(agents)
+        z["default_hosting"] = 0
+        z["hosting"] = []
     name, objective = rng.choice(["dcop", "t1", "graph coloring"]), rng.choice(["min", "max"])
     build = "api" if rng.random() < 0.3 else "dict"
     if build == "api":
@@ -367,6 +377,9 @@ def gen(rng, n, tier):
                 other = _gen_dcop(rng)["agents"]
                 if other:
                     c["override_agents"] = other
+            if how != "string" and rng.random() < 0.4:
+                # the same path(s) held another DCOP that was loaded earlier in this process
+                c["previous"] = _gen_dcop(rng)
             cases.append(c)
         elif r < 0.85:
             if not _expressible(d):
@@ -593,12 +606,23 @@ def run_impl(c):
             files_text = [t for t in files_text if t.strip()]
             os.makedirs(WORK, exist_ok=True)
             tmp = tempfile.mkdtemp(prefix="c14-", dir=WORK)
-            paths = []
-            for i, t in enumerate(files_text):
-                p = os.path.join(tmp, "part%d.yaml" % i)
+            paths = [os.path.join(tmp, "part%d.yaml" % i) for i in range(len(files_text))]
+            if c.get("previous") and paths:
+                # second use of the same paths in one process: first store and load another DCOP
+                try:
+                    ptext = Y.dcop_yaml(_build_dcop(c["previous"]))
+                except Exception:
+                    ptext = "name: previous\nobjective: min\n"
+                for i, p in enumerate(paths):
+                    with open(p, "w", encoding="utf-8") as f:
+                        f.write(ptext if i == 0 else "")
+                try:
+                    Y.load_dcop_from_file(paths[0] if c["how"] == "strpath" else paths)
+                except Exception:
+                    pass
+            for p, t in zip(paths, files_text):
                 with open(p, "w", encoding="utf-8") as f:
                     f.write(t)
-                paths.append(p)
             try:
                 arg = paths[0] if c["how"] == "strpath" else paths
                 res = _obs_loaded(Y.load_dcop_from_file(arg), probe_agents, probe_comps)
@@ -1047,7 +1071,8 @@ def histogram(cases, obs):
             inc("load/" + (c["mutation"] or "valid"))
             r = o.get("result", {}) if isinstance(o, dict) else {}
         else:
-            inc("round/" + c["how"] + ("+override" if c.get("override_agents") else ""))
+            inc("round/" + c["how"] + ("+override" if c.get("override_agents") else "")
+                + ("+previous" if c.get("previous") else ""))
             inc("round/built-by-" + c["dcop"].get("build", "dict"))
             inc("round/expressible" if _expressible(c["dcop"]) else "round/not-expressible")
             r = o.get("result", o.get("dump", {})) if isinstance(o, dict) else {}
@@ -1092,6 +1117,14 @@ def shrink_candidates(c):
             c2 = copy.deepcopy(c)
             c2.pop("override_agents")
             yield c2
+        if c.get("previous"):
+            c2 = copy.deepcopy(c)
+            c2.pop("previous")
+            yield c2
+            c2 = copy.deepcopy(c)
+            c2["previous"] = dict(c["previous"], constraints=[], agents=[])
+            if c2 != c:
+                yield c2
         if c["how"] != "string":
             c2 = copy.deepcopy(c)
             c2["how"] = "string"
